@@ -82,6 +82,15 @@ func loadCorpus() {
 		}
 		fh.Close()
 	}
+	// parameter values of the kinds callers really pass: lists of ids, of maps, of mixed scalars
+	rich := []qcase{
+		{text: "match (n) where id(n) in $ids return n", params: map[string]any{"ids": []any{graph.ID(1), graph.ID(2), graph.ID(77)}}},
+		{text: "match (n) where n.objectid in $names return n", params: map[string]any{"names": []any{"a", "b", int64(3)}}},
+		{text: "match (n) where n.objectid in $names and id(n) in $ids return n", params: map[string]any{"names": []string{"x", "y"}, "ids": []graph.ID{5, 6}}},
+		{text: "match (n) where n.objectid = $p0 return n", params: map[string]any{"p0": []any{map[string]any{"k": "v"}, map[string]any{"n": int64(1)}}}},
+		{text: "match (s)-[r]->(e) where id(s) in $ids and e.name = $name return r", params: map[string]any{"ids": []any{graph.ID(9)}, "name": "n"}},
+	}
+	corpus = append(corpus, rich...)
 	// a few builder-style / awkward extras
 	for _, q := range []string{
 		"match (n) return n", "match (n:User) where n.name = 'a' return n.name order by n.name limit 5",
